@@ -1521,6 +1521,18 @@ func runC18(cx *CheckCtx) {
 	}
 	safeName := fq(safeFn)
 	var fragFn *ssa.Function
+	// the methods' own length tests (if any) agree with the validator: a fault decided by the length of
+	// the name in the method body is raised only outside 3 … 255 — 255 itself is a valid length
+	for _, g := range []string{"Register", "RegisterTLD", "IsAvailable"} {
+		m := cx.method("nns", g)
+		if m == nil {
+			continue
+		}
+		a := cx.run(m)
+		ln := a.litLen(paramTerm(a.tb, m, "name"))
+		np, okP := panicOnlyIf(a, m.Fn, ln, nil, a.litLtC(ln, 3), -a.litLtC(ln, 256))
+		cx.decide(okP, "limits", "nns."+g+"/own-length-test", fmt.Sprintf("%d length-decided faults in the method body, each only outside 3 … 255", np), g+" refuses, by a length test of its own, a name whose length is inside 3 … 255 (the bound disagrees with the validator): syntactically valid names of that length are turned away", w.pos(m.Fn.Pos()))
+	}
 	// D1 names: first effect only after splitAndCheck accepted the name
 	for _, g := range []struct{ name, param string }{{"Register", "name"}, {"RegisterTLD", "name"}} {
 		m := cx.method("nns", g.name)
@@ -2092,7 +2104,7 @@ func callbackLast(cx *CheckCtx, a *Analysis, key string) {
 	}
 	ok, where := true, ""
 	for _, e := range a.RealEffects() {
-		if !isStore(e) {
+		if !isStore(e) && e.Effect != "notify" {
 			continue
 		}
 		for _, o := range outs {
@@ -2101,7 +2113,7 @@ func callbackLast(cx *CheckCtx, a *Analysis, key string) {
 			}
 		}
 	}
-	cx.decide(ok, "callback-last", key, fmt.Sprintf("%d call-outs, each after every store of the method", len(outs)), key+" hands control to another contract before its own stores are done ("+where+" can follow the call-out): a receiver that calls back sees the old owner, and the ledger ends up inconsistent with the record", where)
+	cx.decide(ok, "callback-last", key, fmt.Sprintf("%d call-outs, each after every store and every notification of the method", len(outs)), key+" hands control to another contract before its own stores and announcements are done ("+where+" can follow the call-out): a receiver that calls back sees the old owner or moves the name on before the first move is announced, and the ledger or the event stream ends up inconsistent with the record", where)
 }
 
 // nnsTransferResetsAdmin: the record stored by Transfer is the loaded one with
